@@ -96,7 +96,7 @@ type shape struct {
 var relsIP = []string{"eq", "rev", "bit", "rnd",
 	"rnd/zero", "rnd/ones", "rnd/special",
 	"zero/eq", "ones/eq", "special/eq",
-	"zero/rnd", "ones/rnd", "special/rnd", "zero/ones", "ones/zero", "zero/bit", "ones/bit", "special/bit", "special/zero"}
+	"zero/rnd", "ones/rnd", "special/rnd", "zero/ones", "ones/zero", "zero/bit", "ones/bit", "special/bit", "special/zero", "zero/special", "ones/special", "special/ones"}
 
 var shapes = []shape{
 	{etIPv4, 0, lensV4, relsIP},
